@@ -552,16 +552,17 @@ func main() {
 		"rule": "breadth-first over all operation sequences up to the depth of each suite, for budgets {6,150}ms x weights {1,2}; every back-off call carries its environment answers " +
 			"(jitter minimum/maximum, optional context cancellation or kill in the middle of the sleep); each transition is executed on the real Backoffer (fresh instance + replay of the shortest history) " +
 			"and compared with the reference accountant; states = distinct canonical reference states (final level counted by 64-bit key prefix), transitions = checked (state, operation) pairs, " +
-			"non-trivial = states in which at least one back-off was accounted; suite kinds: one backoffer x every built-in kind + a custom FullJitter config; suite family: up to 3 live backoffers (clone/fork/merge) x core kinds; suite deep (thorough): 2 live backoffers, reduced alphabet",
+			"non-trivial = states in which at least one back-off was accounted; suite kinds: one backoffer x every built-in kind + a custom FullJitter config; suite family: up to 3 live backoffers (clone/fork/merge/cancel/kill) x core kinds; " +
+			"thorough adds family-ext (three more back-off calls) and deep (a backoffer and one fork of it at a time, reduced alphabet, depth 8); see per_suite for depths and (budget, weight) pairs",
 		"samples": samples.List(),
 	}, []string{
 		"the 10 min own cap of the budget-excluded kind (tikvServerBusy) is lowered to 3000ms with the package's own test-only setter so that exhausting it is reachable; the oracle bounds excluded sleep by max(own cap, budget) + one step because the code demands both (with budget <= cap this is the property's bound)",
 		"UpdateUsingForked is only applied to a backoffer on the fork's parent chain and the fork is not used afterwards (documented precondition); merging is specified as copying the fork's counters (DESIGN C20), also when the receiver slept in between",
 		"the largest-sleeper rule is judged on the lifetime per-kind accounting (GetBackoffSleepMS), ties accept any tied kind, excluded kinds may or may not compete, an exhausted backoffer without any eligible kind may return the caller's error",
 		"a sleep cut by context cancellation is accounted as 0ms (documented in newBackoffFn); the budget bound is judged on accounted sleep, and accounted sleep equals virtual time slept for every completed sleep",
-		"a kill in the middle of a sleep is only demanded to be reported when that call returns (nothing can wake the sleeper); a kill before the call is demanded to be reported without sleeping",
+		"a kill in the middle of a sleep is only demanded to be reported when that call returns (nothing can wake the sleeper); a kill before the call is demanded to be reported at once without sleeping and without accounting; an implementation that sleeps first is reported (kill:next-call-sleeps-before-reporting) and its accounting of that sleep is followed so that exploration continues",
 		"the exact exponential schedule (base*2^n, jitter range) is not demanded: only sleep <= cap and <= per-call maximum; a schedule different from the documented one marks the run non-exhaustive because deduplication relies on it",
-		"GetTypes is only required to list the kinds the backoffer itself recorded or inherited",
+		"GetTypes is only required to list the kinds the backoffer itself recorded or inherited (after a merge: those both sides had)",
 		"jitter answers are the two ends of the drawn range only; DecorrJitter is not used by any built-in kind and is not explored",
 	})
 }
